@@ -38,6 +38,16 @@ PROPS = {
     "C01": dict(test="TestC01", level="exploration", runs=[("", "plain", 16)], timeout=(900, 5400), floor=(2000, 200),
                 rule="case = generated (config, relationships, 6 queries) x modes {ast-default, opl-default, opl-strict} x insertion orders/schedules; "
                      "non-trivial = the reference needed more than the direct lookup AND the engine issued >= 2 storage calls; distinct by (case, mode, query)"),
+    "C02": dict(test="TestC02", level="exploration", runs=[("", "plain", 16)], timeout=(900, 5400), floor=(20000, 5000),
+                rule="case = generated (config, relationships, queries) incl. chains / wide nodes / dense diamonds straddling the limits, run on the real engine over a grid of "
+                     "global depth g in {1,2,3,5,8} (+ every effective depth), width w in {1,3,100} (thorough: +2) and request depth r in {-3,0,1,2,3,g-1,g,g+1,1000}; "
+                     "oracles: allowed under a limit => allowed by the unbounded reference semantics; answer(r,g,w) = answer(0,eff(r,g),w) on the same database (a mismatch is re-run 5x per side; "
+                     "only a deterministic difference is a violation, nondeterminism under a binding limit is counted); non-trivial = a grid point whose run logged a depth/width cut; distinct by (case, g, w, r, query)"),
+    "C03": dict(test="TestC03", level="fault_enumeration", runs=[("", "plain", 16)], timeout=(900, 5400), floor=(4000, 2500),
+                rule="case = generated (config, relationships, queries); for every query the fault-free run is recorded (answer, N storage calls), then for EVERY k in 1..N (capped at 40 quick / 80 thorough) "
+                     "the k-th storage call fails (transient, and persistent from k on) with rotating error kinds (connection refused, context canceled, deadline exceeded, sqlcon, herodot 500); "
+                     "oracles: result is an error or the fault-free answer; never allowed when fault-free is denied; never Err != nil together with IsMember; REST and gRPC batch entries never allowed:true with an error; "
+                     "non-trivial = a run in which the planned fault position was actually reached; distinct by (case, query, k, persistent)"),
     "C16": dict(test="TestC16", level="exploration", runs=[("", "plain", 16)], timeout=(900, 5400), floor=(25000, 600),
                 rule="case = one generated batch of 1..350 API tuples over a pool of adversarial names (modes distinct / repeat-heavy / obj-eq-subj / mixed / page-edge / adversarial-small), "
                      "run through the real Mapper + SQLite persister (FromTuple/ToTuple/FromQuery/ToQuery/FromSubjectSet/ToTree, MapStringsToUUIDs[ReadOnly], MapUUIDsToStrings) and, for the valid-UTF-8 tuples, "
